@@ -6,6 +6,8 @@ meta names another check as the one that reports it, that check is run too. Neve
 import json, os, subprocess, sys, time, re
 wt, lane, lanes, res = sys.argv[1], int(sys.argv[2]), int(sys.argv[3]), sys.argv[4]
 dirs = sorted(d for d in os.listdir('/verif/seeded') if os.path.isdir(f'/verif/seeded/{d}'))
+if os.environ.get('RECHECK_ONLY'):
+    dirs = [d for d in dirs if d.split('-')[0] in os.environ['RECHECK_ONLY'].split(',')]
 done = set()
 if os.path.exists(res):
     done = {json.loads(l)['name'] for l in open(res)}
